@@ -15,38 +15,45 @@ variable {α : Type} [Field α] [LinearOrder α] [IsStrictOrderedRing α]
 structure GeoContract (geo : Geo α) : Prop where
   nearestMem : ∀ l p x, geo.nearest l p = some x → x ∈ l
   lengthNonneg : ∀ pts, 0 ≤ geo.length pts
+  euclidNonneg : ∀ p q, 0 ≤ geo.euclid p q
+  euclidSymm : ∀ p q, geo.euclid p q = geo.euclid q p
 
 /-- invariant of `AddLink` histories -/
-structure BInv (net : Net α) : Prop where
+structure BInv (geo : Geo α) (net : Net α) : Prop where
   maxid : net.maxID = net.nodes.length
   idle : ∀ m ∈ net.nodes, 1 ≤ m.id ∧ m.id ≤ net.maxID
   nonneg : ∀ e ∈ net.edges, 0 ≤ e.length ∧ 0 ≤ e.time
   noself : ∀ e ∈ net.edges, e.a ≠ e.b
   ends : ∀ e ∈ net.edges, hasNode net e.a = true ∧ hasNode net e.b = true
   speed : ∀ e ∈ net.edges, 0 < e.speed ∧ e.speed ≤ net.maxSpeed ∧ e.time = e.length / e.speed
+  nodup : (net.nodes.map (·.id)).Nodup
+  scale : 0 ≤ net.hscale ∧ net.hscale ≤ 1
+  /-- the scaled distance between a link's end NODES never exceeds the link's length -/
+  chord : ∀ e ∈ net.edges, ∀ pa pb, nodePos net e.a = some pa → nodePos net e.b = some pb →
+    net.hscale * geo.euclid pa pb ≤ e.length
 
-theorem BInv.wf {net : Net α} (h : BInv net) : WF net :=
+theorem BInv.wf {geo : Geo α} {net : Net α} (h : BInv geo net) : WF net :=
   ⟨h.nonneg, h.noself, h.ends, fun m hm => by have := h.idle m hm; have := h.maxid; omega⟩
 
 theorem newNode_spec (geo : Geo α) (hc : GeoContract geo) (net : Net α) (p : Pt α) (m : MNode α) (net' : Net α)
     (h : newNode geo net p = (m, net')) :
-    net'.nodes = net.nodes ∧ net'.edges = net.edges ∧ net'.maxSpeed = net.maxSpeed ∧
+    net'.nodes = net.nodes ∧ net'.edges = net.edges ∧ (net'.maxSpeed = net.maxSpeed ∧ net'.hscale = net.hscale) ∧
     ((m ∈ net.nodes ∧ net'.maxID = net.maxID) ∨ (m.id = net.maxID + 1 ∧ net'.maxID = net.maxID + 1)) := by
   unfold newNode at h
   cases hn : geo.nearest net.nodes p with
   | none =>
     simp only [hn, Prod.mk.injEq] at h
     obtain ⟨rfl, rfl⟩ := h
-    exact ⟨rfl, rfl, rfl, Or.inr ⟨rfl, rfl⟩⟩
+    exact ⟨rfl, rfl, ⟨rfl, rfl⟩, Or.inr ⟨rfl, rfl⟩⟩
   | some x =>
     simp only [hn] at h
     split_ifs at h with he
     · simp only [Prod.mk.injEq] at h
       obtain ⟨rfl, rfl⟩ := h
-      exact ⟨rfl, rfl, rfl, Or.inl ⟨hc.nearestMem _ _ _ hn, rfl⟩⟩
+      exact ⟨rfl, rfl, ⟨rfl, rfl⟩, Or.inl ⟨hc.nearestMem _ _ _ hn, rfl⟩⟩
     · simp only [Prod.mk.injEq] at h
       obtain ⟨rfl, rfl⟩ := h
-      exact ⟨rfl, rfl, rfl, Or.inr ⟨rfl, rfl⟩⟩
+      exact ⟨rfl, rfl, ⟨rfl, rfl⟩, Or.inr ⟨rfl, rfl⟩⟩
 
 /-- the node list after `addNode from; addNode to` -/
 def nodes2 (l : List (MNode α)) (a b : MNode α) : List (MNode α) :=
@@ -109,8 +116,92 @@ theorem nodes2_spec (l : List (MNode α)) (a b : MNode α) (K M1 M2 : Nat)
       · subst h; omega
       · subst h; omega
 
+theorem find_id_of_mem (l : List (MNode α)) (hnd : (l.map (·.id)).Nodup) (m : MNode α) (hm : m ∈ l) :
+    l.find? (fun n => n.id == m.id) = some m := by
+  induction l with
+  | nil => cases hm
+  | cons x l ih =>
+    simp only [List.map_cons, List.nodup_cons] at hnd
+    rcases List.mem_cons.1 hm with rfl | h
+    · simp
+    · have hx : x.id ≠ m.id := by
+        intro e; exact hnd.1 (e ▸ List.mem_map.2 ⟨m, h, rfl⟩)
+      have hx' : (x.id == m.id) = false := by simpa using hx
+      simp [List.find?, hx', ih hnd.2 h]
+
+theorem addNode_hscale (net : Net α) (n : MNode α) : (addNode net n).hscale = net.hscale := by
+  unfold addNode; split_ifs <;> rfl
+
+/-- node ids are unique, so the position stored under a node's id is that node's position -/
+theorem nodePos_of_mem (net : Net α) (hnd : (net.nodes.map (·.id)).Nodup) (m : MNode α) (hm : m ∈ net.nodes) :
+    nodePos net m.id = some m.p := by
+  simp [nodePos, find_id_of_mem net.nodes hnd m hm]
+
+/-- `nodes2` keeps ids unique and contains both end nodes themselves -/
+theorem nodes2_nodup (l : List (MNode α)) (a b : MNode α) (K M1 : Nat)
+    (hid : ∀ m ∈ l, 1 ≤ m.id ∧ m.id ≤ K) (hab : a.id ≠ b.id) (hnd : (l.map (·.id)).Nodup)
+    (hF : (a ∈ l ∧ M1 = K) ∨ (a.id = K + 1 ∧ M1 = K + 1))
+    (hT : b ∈ l ∨ b.id = M1 + 1) :
+    ((nodes2 l a b).map (·.id)).Nodup ∧ a ∈ nodes2 l a b ∧ b ∈ nodes2 l a b := by
+  have anyiff : ∀ (l' : List (MNode α)) (i : Nat), (l'.any fun n => n.id == i) = true ↔ ∃ m ∈ l', m.id = i := by
+    intro l' i; simp
+  have notin : ∀ i, K < i → ¬ ∃ m ∈ l, m.id = i := by
+    rintro i hi ⟨m, hm, rfl⟩
+    have := hid m hm; omega
+  have notin' : ∀ i, K < i → i ∉ l.map (·.id) := by
+    intro i hi hmem
+    obtain ⟨m, hm, hmi⟩ := List.mem_map.1 hmem
+    exact notin _ hi ⟨m, hm, hmi⟩
+  rcases hF with ⟨ha, rfl⟩ | ⟨ha, rfl⟩
+  · have h1 : (l.any fun n => n.id == a.id) = true := (anyiff l a.id).2 ⟨a, ha, rfl⟩
+    rcases hT with hb | hb
+    · have h2 : (l.any fun n => n.id == b.id) = true := (anyiff l b.id).2 ⟨b, hb, rfl⟩
+      have hn : nodes2 l a b = l := by unfold nodes2; rw [if_pos h1, if_pos h2]
+      rw [hn]; exact ⟨hnd, ha, hb⟩
+    · have h2 : ¬ (l.any fun n => n.id == b.id) = true := by
+        rw [anyiff]; exact notin _ (by omega)
+      have hn : nodes2 l a b = l ++ [b] := by unfold nodes2; rw [if_pos h1, if_neg h2]
+      rw [hn]
+      refine ⟨?_, by simp [ha], by simp⟩
+      rw [List.map_append, List.nodup_append]
+      refine ⟨hnd, by simp, ?_⟩
+      intro x hx y hy
+      simp at hy; subst hy
+      intro e; subst e; exact notin' _ (by omega) hx
+  · have h1 : ¬ (l.any fun n => n.id == a.id) = true := by
+      rw [anyiff]; exact notin _ (by omega)
+    have hnda : ((l ++ [a]).map (·.id)).Nodup := by
+      rw [List.map_append, List.nodup_append]
+      refine ⟨hnd, by simp, ?_⟩
+      intro x hx y hy
+      simp at hy; subst hy
+      intro e; subst e; exact notin' _ (by omega) hx
+    rcases hT with hb | hb
+    · have h2 : ((l ++ [a]).any fun n => n.id == b.id) = true :=
+        (anyiff _ b.id).2 ⟨b, by simp [hb], rfl⟩
+      have hn : nodes2 l a b = l ++ [a] := by unfold nodes2; rw [if_neg h1, if_pos h2]
+      rw [hn]; exact ⟨hnda, by simp, by simp [hb]⟩
+    · have h2 : ¬ ((l ++ [a]).any fun n => n.id == b.id) = true := by
+        rw [anyiff]
+        rintro ⟨m, hm, hmid⟩
+        rcases List.mem_append.1 hm with h | h
+        · have := hid m h; omega
+        · simp at h; subst h; exact hab hmid
+      have hn : nodes2 l a b = (l ++ [a]) ++ [b] := by unfold nodes2; rw [if_neg h1, if_neg h2]
+      rw [hn]
+      refine ⟨?_, by simp, by simp⟩
+      rw [List.map_append, List.nodup_append]
+      refine ⟨hnda, by simp, ?_⟩
+      intro x hx y hy
+      simp at hy; subst hy
+      intro e; subst e
+      rw [List.map_append, List.mem_append] at hx
+      rcases hx with hx | hx
+      · exact notin' _ (by omega) hx
+      · simp at hx; omega
+
 theorem addLink_inv (geo : Geo α) (hc : GeoContract geo) (net net' : Net α) (i : Nat) (l : Link α)
-    (hI : BInv net) (hsp : 0 < l.speed) (h : addLink geo net i l = .ok net') : BInv net' := by
+    (hI : BInv geo net) (hsp : 0 < l.speed) (h : addLink geo net i l = .ok net') : BInv geo net' := by
   unfold addLink at h
   cases hh : l.pts.head? with
   | none => simp [hh] at h
@@ -122,17 +213,20 @@ theorem addLink_inv (geo : Geo α) (hc : GeoContract geo) (net net' : Net α) (i
       rcases hn1 : newNode geo net p0 with ⟨a, net1⟩
       rcases hn2 : newNode geo net1 pn with ⟨b, net2⟩
       simp only [hn1, hn2] at h
-      obtain ⟨e1, e2, e3, hF⟩ := newNode_spec geo hc net p0 a net1 hn1
-      obtain ⟨f1, f2, f3, hT⟩ := newNode_spec geo hc net1 pn b net2 hn2
+      obtain ⟨e1, e2, ⟨e3, e4⟩, hF⟩ := newNode_spec geo hc net p0 a net1 hn1
+      obtain ⟨f1, f2, ⟨f3, f4⟩, hT⟩ := newNode_spec geo hc net1 pn b net2 hn2
       by_cases hab : a.id = b.id
       · simp [hab] at h
       · simp only [if_neg hab] at h
         have hlen := hc.lengthNonneg l.pts
         have htime : 0 ≤ geo.length l.pts / l.speed := div_nonneg hlen (le_of_lt hsp)
         -- the node list of the result
-        have key := nodes2_spec net.nodes a b net.maxID net1.maxID net2.maxID hI.maxid hI.idle hab hF
-          (by rw [f1, e1] at *; exact hT)
+        have hT' : (b ∈ net.nodes ∧ net2.maxID = net1.maxID) ∨ (b.id = net1.maxID + 1 ∧ net2.maxID = net1.maxID + 1) := by
+          rw [f1, e1] at *; exact hT
+        have key := nodes2_spec net.nodes a b net.maxID net1.maxID net2.maxID hI.maxid hI.idle hab hF hT'
         obtain ⟨k1, k2, k3, k4, k5⟩ := key
+        obtain ⟨n1, n2, n3⟩ := nodes2_nodup net.nodes a b net.maxID net1.maxID hI.idle hab hI.nodup hF
+          (by rcases hT' with h | h; exact Or.inl h.1; exact Or.inr h.1)
         -- maximum speed of the result
         set ms : α := if net2.maxSpeed < l.speed then l.speed else net2.maxSpeed with hms
         have hms1 : l.speed ≤ ms := by
@@ -143,6 +237,9 @@ theorem addLink_inv (geo : Geo α) (hc : GeoContract geo) (net net' : Net α) (i
           rw [hms, f3, e3]; split_ifs with hx
           · exact le_of_lt hx
           · exact le_refl _
+        -- heuristic scale of the result
+        set hs : α := if 0 < geo.euclid a.p b.p ∧ geo.length l.pts / geo.euclid a.p b.p < net.hscale
+          then geo.length l.pts / geo.euclid a.p b.p else net.hscale with hhs
         have hnodes : net'.nodes = nodes2 net.nodes a b ∧ net'.maxID = net2.maxID ∧ net'.maxSpeed = ms ∧
             net'.edges = net.edges ++ [⟨i, a.id, b.id, geo.length l.pts, l.speed, geo.length l.pts / l.speed⟩] := by
           simp only [Except.ok.injEq] at h
@@ -150,9 +247,33 @@ theorem addLink_inv (geo : Geo α) (hc : GeoContract geo) (net net' : Net α) (i
           simp only [addNode, hasNode, nodes2, hms]
           split_ifs <;> simp_all
         obtain ⟨g1, g2, g3, g4⟩ := hnodes
+        have g5 : net'.hscale = hs := by
+          simp only [Except.ok.injEq] at h
+          subst h
+          simp only [addNode_hscale, hhs]
+          split_ifs <;> simp_all
         have hasN : ∀ j, (∃ m ∈ nodes2 net.nodes a b, m.id = j) → hasNode net' j = true := by
           intro j hj; rw [hasNode_iff, g1]; exact hj
-        refine ⟨by rw [g2, g1]; exact k1, by rw [g1, g2]; exact k2, ?_, ?_, ?_, ?_⟩
+        have hnd' : (net'.nodes.map (·.id)).Nodup := by rw [g1]; exact n1
+        have hd0 := hc.euclidNonneg a.p b.p
+        have hs_le : hs ≤ net.hscale := by
+          rw [hhs]; split_ifs with hx
+          · exact le_of_lt hx.2
+          · exact le_refl _
+        have hs0 : 0 ≤ hs := by
+          rw [hhs]; split_ifs with hx
+          · exact div_nonneg hlen (le_of_lt hx.1)
+          · exact hI.scale.1
+        have hs_new : hs * geo.euclid a.p b.p ≤ geo.length l.pts := by
+          rw [hhs]; split_ifs with hx
+          · rw [div_mul_cancel₀ _ (ne_of_gt hx.1)]
+          · by_cases hpos : 0 < geo.euclid a.p b.p
+            · have : ¬ geo.length l.pts / geo.euclid a.p b.p < net.hscale := fun hlt => hx ⟨hpos, hlt⟩
+              have := not_lt.1 this
+              rwa [le_div_iff₀ hpos] at this
+            · have h0 : geo.euclid a.p b.p = 0 := le_antisymm (not_lt.1 hpos) hd0
+              rw [h0]; simpa using hlen
+        refine ⟨by rw [g2, g1]; exact k1, by rw [g1, g2]; exact k2, ?_, ?_, ?_, ?_, hnd', ?_, ?_⟩
         · intro e he
           rw [g4] at he
           rcases List.mem_append.1 he with h' | h'
@@ -177,9 +298,34 @@ theorem addLink_inv (geo : Geo α) (hc : GeoContract geo) (net net' : Net α) (i
           · obtain ⟨x1, x2, x3⟩ := hI.speed e h'
             exact ⟨x1, by rw [g3]; exact le_trans x2 hms2, x3⟩
           · simp at h'; subst h'; exact ⟨hsp, by rw [g3]; exact hms1, rfl⟩
+        · rw [g5]; exact ⟨hs0, le_trans hs_le hI.scale.2⟩
+        · intro e he pa pb hpa hpb
+          rw [g5]
+          rw [g4] at he
+          rcases List.mem_append.1 he with h' | h'
+          · -- an older link: its end nodes and their positions are unchanged
+            obtain ⟨x1, x2⟩ := hI.ends e h'
+            obtain ⟨m1, hm1, hid1⟩ := (hasNode_iff net e.a).1 x1
+            obtain ⟨m2, hm2, hid2⟩ := (hasNode_iff net e.b).1 x2
+            have q1 := nodePos_of_mem net' hnd' m1 (by rw [g1]; exact k5 m1 hm1)
+            have q2 := nodePos_of_mem net' hnd' m2 (by rw [g1]; exact k5 m2 hm2)
+            rw [hid1, hpa] at q1; rw [hid2, hpb] at q2
+            have r1 := nodePos_of_mem net hI.nodup m1 hm1
+            have r2 := nodePos_of_mem net hI.nodup m2 hm2
+            rw [hid1] at r1; rw [hid2] at r2
+            cases q1; cases q2
+            have := hI.chord e h' _ _ r1 r2
+            exact le_trans (mul_le_mul_of_nonneg_right hs_le (hc.euclidNonneg _ _)) this
+          · simp at h'; subst h'
+            have q1 := nodePos_of_mem net' hnd' a (by rw [g1]; exact n2)
+            have q2 := nodePos_of_mem net' hnd' b (by rw [g1]; exact n3)
+            simp only [] at hpa hpb
+            rw [hpa] at q1; rw [hpb] at q2
+            cases q1; cases q2
+            exact hs_new
 
 theorem buildFrom_inv (geo : Geo α) (hc : GeoContract geo) (ls : List (Link α)) (net net' : Net α) (i : Nat)
-    (hI : BInv net) (hsp : ∀ l ∈ ls, 0 < l.speed) (h : buildFrom geo net i ls = .ok net') : BInv net' := by
+    (hI : BInv geo net) (hsp : ∀ l ∈ ls, 0 < l.speed) (h : buildFrom geo net i ls = .ok net') : BInv geo net' := by
   induction ls generalizing net i with
   | nil => simp [buildFrom] at h; subst h; exact hI
   | cons l ls ih =>
